@@ -32,12 +32,13 @@ CHECKS = [
  core("C06", "6/C06", "TLC checks one holder, first-come hand-over, exactly-once confirmation and session-end clean-up over all interleavings of lock/acquire/release/disconnect for 2-3 clients and 2 keys; traces of the real core validated."),
  core("C07", "6/C07", "TLC checks the session-end procedure (six ordered sub-steps) against the reference effect on the flat map, events of other subscribers and the frame condition; traces of the real core validated."),
  core("C04", "6/C04", "TLC evaluates for every pattern over {a,b,'',?,#} up to depth 3 (quick) / 4 (thorough), on a store holding every key up to that depth, that store collect (pget), store delete (pdelete) and the subscriber walk (notification) agree with the documented relation and reject illegal patterns; the real core answers the same exhaustive table and TLC validates the recorded trace."),
+ core("C09", "6/C09", "A restart through the JSON persistence (flush, optional re-layout into the v2/v1 schemas in both toggle states, load with registrations applied) is an action of the core specification; TLC checks on the bounded universe that every user key keeps value, kind and version, nothing under $SYS survives and the registrations are applied; the real flush/load code performs the restarts of the replayed walks and random histories and TLC validates the traces."),
  core("C08", "6/C08", "TLC checks that no request of an ordinary client changes a protected $SYS key or makes a $SYS subscriber see a foreign value, over the product of request kinds and key/pattern shapes; traces of the real core validated."),
 ]
 
 CHECKS.append(persist("C10", "6/C10", "TLC explores every interleaving of mutation, the file-system steps of a flush, a crash between any two of them and the steps of the load chain (which itself moves the slot selector) and checks that a start recovers the last completed or the in-progress snapshot with registrations of the same snapshot; the real code is crashed after every file-system step (single, double, in-load) and every recorded step and recovered generation is validated against the spec."))
 
-PENDING = ["C02","C09","C11","C12","C13","C15","C16","C17","C18","C19","C20"]
+PENDING = ["C02","C11","C12","C13","C15","C16","C17","C18","C19","C20"]
 
 def main():
     import props
